@@ -305,7 +305,9 @@ func runLCase(c LCase) *lOutcome {
 		case "deq":
 			rec, m := call("dequeue", map[string]any{"batch": op.N, "lease_ttl": fmt.Sprintf("%dms", op.TTLMs)})
 			if rec.Code != 200 {
-				out.Failure = &verifkit.Failure{Prop: "HARNESS", Clause: "dequeue", Detail: fmt.Sprintf("dequeue answered %d %s", rec.Code, rec.Body.String())}
+				// no fault is ever injected into a dequeue here: a dequeue that fails hands out nothing
+				// although capacity was requested (and whatever broke the store is still broken)
+				out.Failure = &verifkit.Failure{Prop: "C05,C04,C01", Clause: "dequeue-internal-error", Step: i, Detail: fmt.Sprintf("dequeue answered %d %s", rec.Code, strings.TrimSpace(rec.Body.String()))}
 				return out
 			}
 			if items, ok := m["items"].([]any); ok {
